@@ -41,13 +41,14 @@ Decision(cfg) == IF cfg.chain \in DropChains THEN "DROP" ELSE "PASS"
 Sink(cfg) == CASE cfg.out \in {"default", "unknown", "devlog"} -> "devlog"
                [] cfg.out = "file"     -> "file"
                [] cfg.out = "filetpl"  -> "filetpl"      \* path template file:<dir>/t-%{snoopy_literal:x}.log
+               [] cfg.out = "filefifo" -> "filefifo"     \* the file is a named pipe whose reader is slow: full when the record arrives, drained a little later
                [] cfg.out = "socket"   -> "sock"
                [] cfg.out = "socket107" -> "sock107"     \* socket path of the maximum length (107 bytes)
                [] cfg.out = "stdout"   -> "stdout"
                [] cfg.out = "stderr"   -> "stderr"
                [] cfg.out = "devtty"   -> "devtty"
                [] OTHER                -> "none"          \* devnull, noop, filenoarg, filebad (unopenable path)
-Frame(cfg) == CASE Sink(cfg) \in {"file", "filetpl", "stdout", "stderr", "devtty"} -> "line"    \* message + newline
+Frame(cfg) == CASE Sink(cfg) \in {"file", "filetpl", "filefifo", "stdout", "stderr", "devtty"} -> "line"    \* message + newline
                 [] Sink(cfg) \in {"sock", "sock107"} -> "dgram"                                              \* one datagram = message
                 [] Sink(cfg) = "devlog" -> "syslog"                                             \* <pri>ident[pid]: message
                 [] OTHER -> "none"
